@@ -151,7 +151,12 @@ struct World {
   pristine: Mem4,
   shadow: Mem4,
   dirty: bool,
+  /// where the LCD controller stands when a case begins: 0 = power-on (display off, start of
+  /// VBlank); 1..=3 = display on (LCDC = 0x91), line 5, in mode 2 / mode 3 / mode 0
+  lcd_ctx: u8,
 }
+
+const LCD_CTX_NAME: [&str; 4] = ["power-on", "lcd-on/mode2", "lcd-on/mode3", "lcd-on/mode0"];
 
 fn build_image() -> Vec<u8> {
   // MBC3 + RAM + battery, 4 ROM banks, 32 KiB RAM
@@ -167,7 +172,7 @@ fn make_world(path: &str) -> World {
   let pristine = Mem4::pattern();
   pristine.store_into(&mut core.memory);
   let shadow = Mem4::capture(&core.memory);
-  World { core, image, pristine, shadow, dirty: false }
+  World { core, image, pristine, shadow, dirty: false, lcd_ctx: 0 }
 }
 
 #[derive(Clone, Copy, PartialEq, Debug)]
@@ -269,6 +274,17 @@ impl<'w> Exec<'w> {
     }
     w.core.memory.io = IO::new();
     w.core.memory.oam_dma = None;
+    if w.lcd_ctx != 0 {
+      // display on, then idle time until the controller is inside a visible line (no transfer
+      // is armed yet, so nothing but the devices runs)
+      bus_write(&mut w.core, 0xFF40, 0x91);
+      let into_line: u32 = match w.lcd_ctx {
+        1 => 8,
+        2 => 84,
+        _ => 80 + 188 + 20,
+      };
+      w.core.memory.run_clock_cycles(ClockCycles((4560 + 456 * 5 + into_line) as usize));
+    }
     let mut oam = [0u8; OAM_LEN];
     for n in 0..OAM_LEN {
       oam[n] = (0x3C + 3 * n) as u8;
@@ -724,6 +740,43 @@ pub fn run(tier: &str) -> i32 {
   );
   let c1 = rep.add_stage("transition-relation", "pages x progress {idle,0..159} x (176 + 14 large batch sizes + 5 re-arms x 3 steps + <=4 source modifications x 3 batch sizes x 2 steps)", r1);
 
+  // ------------------------------------------------------------------ stage 1b: display on
+  // the same one-step relation with the LCD controller switched on and standing inside a
+  // visible line (OAM search / pixel transfer / HBlank) when the case begins
+  let p0s: [Option<usize>; 5] = [None, Some(0), Some(1), Some(80), Some(159)];
+  let per_page1b = (p0s.len() * 3) as u64;
+  let opts = PoolOpts { chunk: 2, bitmap_bits: 1 << 12, ..PoolOpts::default() };
+  let r1b = run_pool(
+    npages * per_page1b,
+    &opts,
+    |_| make_world(&path),
+    |w: &mut World, case, ctx: &mut Ctx| {
+      let page = pages[(case / per_page1b) as usize];
+      let sub = (case % per_page1b) as usize;
+      let p0 = p0s[sub / 3];
+      w.lcd_ctx = 1 + (sub % 3) as u8;
+      let label = format!("elapse@{}", LCD_CTX_NAME[w.lcd_ctx as usize]);
+      for b in elapse_sizes.iter() {
+        run_history(w, ctx, "transition-relation-lcd-on", page, p0, &[Act::Elapse(*b)], &[true], Some(label.as_str()), false);
+      }
+      for k in 0..5u8 {
+        let acts = [Act::Rearm(k), Act::Elapse(8), Act::Elapse(640)];
+        run_history(w, ctx, "transition-relation-lcd-on", page, p0, &acts, &[true, true, true], Some(label.as_str()), false);
+      }
+      // splits of a whole transfer: 160 x 4 clocks, and 2 batches at every 4-clock point
+      if p0 == Some(0) {
+        let unit = [Act::Elapse(4); 8];
+        let _ = unit;
+        for cut in (4..640u32).step_by(4) {
+          run_history(w, ctx, "transition-relation-lcd-on", page, p0, &[Act::Elapse(cut), Act::Elapse(640 - cut)], &[true, true], Some(label.as_str()), false);
+        }
+      }
+      w.lcd_ctx = 0;
+    },
+    crash_detail("elapse@lcd-on", pages.clone(), per_page1b),
+  );
+  let c1b = rep.add_stage("transition-relation-lcd-on", "pages x progress {idle,0,1,80,159} x LCD controller on and inside line 5 in {mode 2, mode 3, mode 0} x (176 + 14 large batch sizes + 5 re-arms x 3 steps; from progress 0 also every split of the transfer into two batches)", r1b);
+
   // ------------------------------------------------------------------ stage 2: histories
   let mut alphabet: Vec<Act> = Vec::new();
   for b in HIST_ELAPSE.iter() {
@@ -919,8 +972,8 @@ pub fn run(tier: &str) -> i32 {
 
   let _ = std::fs::remove_file(&path);
 
-  let transitions = c1[C_TRANS] + c2[C_TRANS] + c3[C_TRANS];
-  let traces = c1[C_TRACES] + c2[C_TRACES] + c3[C_TRACES];
+  let transitions = c1[C_TRANS] + c1b[C_TRANS] + c2[C_TRANS] + c3[C_TRANS];
+  let traces = c1[C_TRACES] + c1b[C_TRACES] + c2[C_TRACES] + c3[C_TRACES];
   let states = c1[C_STATES];
   let left = c1[C_LEFT_VBLANK] + c2[C_LEFT_VBLANK] + c3[C_LEFT_VBLANK];
   rep.cov("cases_running_past_the_power_on_vblank", J::u(left));
@@ -937,7 +990,7 @@ pub fn run(tier: &str) -> i32 {
   rep.cov("transitions", J::u(transitions));
   rep.cov("traces_validated_against_impl", J::u(traces));
   rep.cov("source_pages", J::u(npages));
-  rep.cov("dma_byte_copies_traced", J::u(c1[C_BYTES] + c2[C_BYTES] + c3[C_BYTES]));
+  rep.cov("dma_byte_copies_traced", J::u(c1[C_BYTES] + c1b[C_BYTES] + c2[C_BYTES] + c3[C_BYTES]));
   rep.cov("batch_schedules_compared_with_one_batch", J::u(c3[C_SPLITS]));
   rep.cov("modify_actions_without_admissible_target", J::u(c1[C_MODSKIP] + c2[C_MODSKIP] + c3[C_MODSKIP]));
   rep.cov("volatile_io_source_bytes_set_valued", J::u(c1[C_VOLATILE] + c2[C_VOLATILE] + c3[C_VOLATILE]));
